@@ -529,6 +529,13 @@ impl Store {
     pub fn insert_frame(&self, frame: &Frame) -> Result<(), crate::error::Error> {
         let encoded: Vec<u8> = serde_json::to_vec(&frame).unwrap();
 
+        // Never store what we could not read back: e.g. meta nested right at serde_json's
+        // depth limit serializes, but wrapped in the frame it no longer parses, and
+        // deserialize_frame would panic on every later read of it.
+        if let Err(e) = serde_json::from_slice::<Frame>(&encoded) {
+            return Err(format!("Frame does not survive serialization: {}", e).into());
+        }
+
         // Get the index topic key
         let topic_key = idx_topic_key_from_frame(frame)?;
 
